@@ -60,6 +60,8 @@ type Contract struct {
 	Pos      token.Position
 	File     *ast.File
 	Params   []string // for externs/functypes without resolvable decl: optional names
+	ExitsSeparate bool      // check the postconditions at every return separately instead of on the merged exit
+	Like       []string     // func blocks: copy requires/ensures/modifies of these contracts (same package)
 	Implements string       // func blocks: "<pkg>.<FuncType>" or "<pkg>.<Iface>.<Method>" whose contract this function must satisfy
 	Ghosts    []*GhostField // struct blocks: ghost fields
 	Immutable []string      // struct blocks: fields written only on freshly allocated objects
@@ -85,6 +87,17 @@ type SpecFun struct {
 	File   *ast.File
 }
 
+// TypeInv: `typeinv mapvalues <maptype> nonnil` (every value stored in a map of this type is
+// non-nil; checked at every map update, assumed at lookups) or `typeinv box <type> nonnil`
+// (an interface value never holds a nil value of this type; checked at every conversion to an
+// interface, assumed at type assertions).
+type TypeInv struct {
+	Kind  string // mapvalues | box
+	Type  string
+	Pkg   string
+	Props []string
+}
+
 type Sweep struct {
 	Props []string
 	Names []string
@@ -94,6 +107,7 @@ type Sweep struct {
 type ContractSet struct {
 	Defaults map[string][]string // pkgpath -> type texts whose parameters are non-nil by default
 	Frames   map[string][]string // named frame sets: name -> items
+	TypeInvs []TypeInv           // module-wide type-level invariants
 	ByKey  map[string]*Contract // key: kind + " " + pkgpath + " " + name
 	Specs  map[string]*SpecFun  // pkgpath + "." + name, and bare name
 	Sweeps []*Sweep
@@ -223,6 +237,13 @@ func (cs *ContractSet) readFile(fset *token.FileSet, f *ast.File, pkgPath, pkgNa
 				} else {
 					errf(pos, "bad frame directive")
 				}
+			case "typeinv":
+				f := strings.Fields(rest)
+				if len(f) == 3 && f[2] == "nonnil" && (f[0] == "mapvalues" || f[0] == "box") {
+					cs.TypeInvs = append(cs.TypeInvs, TypeInv{Kind: f[0], Type: f[1], Pkg: pkgPath, Props: props})
+				} else {
+					errf(pos, "bad typeinv directive")
+				}
 			case "default":
 				f := strings.Fields(rest)
 				if len(f) == 2 && f[0] == "nonnil" {
@@ -255,6 +276,10 @@ func (cs *ContractSet) readFile(fset *token.FileSet, f *ast.File, pkgPath, pkgNa
 					cur.Trusted = true
 				case "params":
 					cur.Params = strings.Fields(rest)
+				case "exits":
+					cur.ExitsSeparate = rest == "separate"
+				case "like":
+					cur.Like = append(cur.Like, strings.Fields(rest)...)
 				case "implements":
 					cur.Implements = rest
 				case "immutable":
@@ -341,4 +366,33 @@ func hasProp(ps []string, p string) bool {
 		}
 	}
 	return false
+}
+
+// resolveLikes copies the clauses of `like` targets (same package) in front of a contract's own.
+func (cs *ContractSet) resolveLikes() {
+	done := map[*Contract]bool{}
+	var rec func(ct *Contract, depth int)
+	rec = func(ct *Contract, depth int) {
+		if done[ct] || depth > 10 {
+			return
+		}
+		done[ct] = true
+		for i := len(ct.Like) - 1; i >= 0; i-- {
+			t := cs.ByKey["func "+ct.Pkg+" "+ct.Like[i]]
+			if t == nil {
+				cs.Errors = append(cs.Errors, fmt.Sprintf("%s: like %s: no such contract", ct.Key, ct.Like[i]))
+				continue
+			}
+			rec(t, depth+1)
+			ct.Requires = append(append([]*Clause{}, t.Requires...), ct.Requires...)
+			ct.Ensures = append(append([]*Clause{}, t.Ensures...), ct.Ensures...)
+			if t.HasMod && !ct.HasMod {
+				ct.Modifies = append([]string{}, t.Modifies...)
+				ct.HasMod = true
+			}
+		}
+	}
+	for _, k := range sortedKeys(cs.ByKey) {
+		rec(cs.ByKey[k], 0)
+	}
 }
